@@ -367,7 +367,7 @@ def check_C05(ctx):
         ctx.validate(ctx.run_cases(cases), module="TraceC05", nontrivial_key=lambda o: o["text"], chunk=8000, timeout=3000)
     # pass-through of raw / comment bodies and string values, beyond the alphabet: seeded
     gen = ctx.gen("passthrough", 400 if ctx.quick else 20000)
-    ctx.validate(ctx.run_cases(gen))
+    ctx.validate(ctx.run_cases(gen), chunk=150, timeout=3000)     # (values of up to 60 kB: small chunks for the JSON reader)
     gen2 = ctx.gen("scanbytes", 300 if ctx.quick else 20000)
     ctx.validate(ctx.run_cases(gen2), module="TraceC05", nontrivial_key=lambda o: o["text"], chunk=500, timeout=3000)
     ctx.exhaustive = False
